@@ -47,7 +47,9 @@ package ont
 //@   -- ... and every listed signer validly signed the message hash (multi-signature check with m = all listed)
 //@   ensures[c24-multisig] err == nil ==> ms
 //@   callsite[c24-all-sign] VerifyMultiSignature#1 requires arg1 == bookkeepers && arg2 == len(bookkeepers) && arg3 == crossChainMsg.SigData
-//@   loop 1 invariant forall a int :: 0 <= a && a < it1 ==> has(consensusPeer.PeerMap, pubkeyID(ref(bookkeepers[a])))
+//@   loop 1 invariant !isnil(usedPubKey) && fresh(usedPubKey)
+//@   loop 1 invariant forall a int :: 0 <= a && a < it1 ==> has(consensusPeer.PeerMap, pubkeyID(ref(bookkeepers[a]))) && usedPubKey[pubkeyID(ref(bookkeepers[a]))]
+//@   loop 1 invariant forall a int, b int :: 0 <= a && a < b && b < it1 ==> pubkeyID(ref(bookkeepers[a])) != pubkeyID(ref(bookkeepers[b]))
 
 //@ func GetKeyHeights
 //@   property C24
